@@ -689,10 +689,16 @@ def inline_private_helpers(tree):
                     stored.add(y.name)
 
         def simple(e):
+            """an access path that can be repeated wherever the parameter
+            is used (no call in it)"""
             if isinstance(e, (ast.Constant, ast.Name)):
                 return True
             if isinstance(e, ast.Attribute):
                 return simple(e.value)
+            if isinstance(e, ast.Subscript):
+                return simple(e.value) and not any(
+                    isinstance(y, (ast.Call, ast.Lambda, ast.Yield))
+                    for y in ast.walk(e.slice))
             return False
         pre = []
         subst = {}
